@@ -1,8 +1,350 @@
-//! C04: classification of every device write of a call (filled in below).
-use crate::engines::fsx::Ctx;
-use crate::interp::{Interp, StepInfo};
-use crate::runner::Failure;
+//! C04: every device write of a call is diffed against its pre-image and
+//! classified by region and ownership, using the independently parsed layout.
 
-pub fn check_call(_it: &Interp, _ctx: &Ctx, _info: &StepInfo) -> Option<Failure> {
+use crate::engines::fsx::Ctx;
+use crate::fsck::{self, FatVal, FatView};
+use crate::interp::{Interp, StepInfo};
+use crate::mkfs::Layout;
+use crate::names::{self, RefName};
+use crate::runner::Failure;
+use crate::simdisk::{Blk, Image, Img};
+use std::collections::{BTreeSet, HashMap};
+
+struct Overlay<'a> {
+    base: &'a Image,
+    over: HashMap<u32, Blk>,
+}
+
+impl<'a> Img for Overlay<'a> {
+    fn rd(&self, b: u32) -> Blk {
+        match self.over.get(&b) {
+            Some(x) => *x,
+            None => self.base.rd(b),
+        }
+    }
+    fn nblocks(&self) -> u32 {
+        self.base.num_blocks
+    }
+}
+
+fn fail(code: &str, detail: String) -> Failure {
+    Failure { sig: format!("C04/{}", code), detail }
+}
+
+#[derive(Clone, Debug, PartialEq)]
+enum Owner {
+    File(String),
+    Dir(String),
+}
+
+fn entry_at(b: &Blk, lay: &Layout, k: u32) -> u32 {
+    let es = lay.entry_size() as usize;
+    let o = k as usize * es;
+    if lay.fat32 {
+        u32::from_le_bytes([b[o], b[o + 1], b[o + 2], b[o + 3]])
+    } else {
+        u16::from_le_bytes([b[o], b[o + 1]]) as u32
+    }
+}
+
+pub fn check_call(it: &Interp, ctx: &Ctx, info: &StepInfo) -> Option<Failure> {
+    if info.log_end <= info.log_start {
+        return None;
+    }
+    let inner = it.disk.0.borrow();
+    let log = &inner.log[info.log_start..info.log_end];
+    // pre-image = current image with the first old value of every block written in this call
+    let mut pre = Overlay { base: &inner.img, over: HashMap::new() };
+    for r in log {
+        pre.over.entry(r.block).or_insert(*r.old);
+    }
+    let mut cur = Overlay { base: &inner.img, over: pre.over.clone() };
+    let kind = info.kind;
+    let what = |r: &crate::simdisk::WriteRec| format!("{} (step {}) wrote block {}", kind, info.idx, r.block);
+
+    // which volume is the call about?
+    let target_slot = info.slot;
+    // out-of-range accesses recorded by the device
+    if let Some((b, w)) = inner.oob.last() {
+        if *w {
+            return Some(fail("write-beyond-device", format!("{} tried to write block {} beyond the device", kind, b)));
+        }
+    }
+    // per volume pre-call knowledge, computed lazily
+    struct VolPre {
+        owners: HashMap<u32, Owner>,
+        allowed_chain: BTreeSet<u32>,
+        target_file_chain: Vec<u32>,
+        target_slot_loc: Option<(u32, u32)>,
+        target_path: Option<String>,
+    }
+    let mut volpre: HashMap<usize, VolPre> = HashMap::new();
+    let pending_post = it.pending();
+    let mut allocated_in_call: BTreeSet<(usize, u32)> = BTreeSet::new();
+    let mut changed_slots: BTreeSet<(u32, u32)> = BTreeSet::new();
+    let mut slot_changes: Vec<(u32, u32, [u8; 32], [u8; 32])> = Vec::new();
+
+    for r in log {
+        if r.old == r.new {
+            // rewriting identical contents changes nothing; still must be inside the volume
+        }
+        let b = r.block;
+        if b == 0 {
+            return Some(fail("mbr-written", what(r)));
+        }
+        let Some(vt) = ctx.vols.iter().find(|v| b >= v.lay.part_start && b < v.lay.part_start + v.lay.part_len) else {
+            return Some(fail("outside-any-volume", format!("{}, which belongs to no FAT volume (gap, foreign partition or guard area)", what(r))));
+        };
+        let lay = &vt.lay;
+        if let Some(ts) = target_slot {
+            if ts != vt.slot {
+                return Some(fail("other-volume-written", format!("{}, which lies in the volume of slot {} while the call operates on slot {}", what(r), vt.slot, ts)));
+            }
+        }
+        // lazily compute the pre-call view of this volume
+        if !volpre.contains_key(&vt.slot) {
+            let fv = FatView::new(&pre, lay);
+            // pending state of open files before the call: post-call state, except for the target file
+            let mut pend: Vec<fsck::Pending> = pending_post.iter().filter(|(s, _)| *s == vt.slot).map(|(_, p)| p.clone()).collect();
+            if let Some(fp) = &info.file_pre {
+                for p in pend.iter_mut() {
+                    if p.entry_block == fp.entry_block && p.entry_off == fp.entry_off {
+                        p.first = fp.first;
+                        p.size = fp.size;
+                    }
+                }
+            }
+            if info.created {
+                // the file did not exist before the call
+                if let Some(fp) = &info.file_post {
+                    pend.retain(|p| !(p.entry_block == fp.entry_block && p.entry_off == fp.entry_off));
+                }
+                if let Some(n) = info.file_node {
+                    if let Some(of) = it.files.iter().find(|f| f.node == n) {
+                        if let Some(st) = it.api().file_state(of.h) {
+                            pend.retain(|p| !(p.entry_block == st.entry_block && p.entry_off == st.entry_off));
+                        }
+                    }
+                }
+            }
+            let w = fsck::walk(&pre, &fv, &pend);
+            let mut owners: HashMap<u32, Owner> = HashMap::new();
+            fn collect(n: &fsck::FNode, out: &mut HashMap<u32, Owner>) {
+                for c in &n.chain {
+                    out.insert(*c, if n.is_dir { Owner::Dir(n.path.clone()) } else { Owner::File(n.path.clone()) });
+                }
+                for k in &n.children {
+                    collect(k, out);
+                }
+            }
+            collect(&w.root, &mut owners);
+            // chains of open files whose entry is not on the medium yet are found through `pending`;
+            // but a file that has clusters and no entry pointing at them needs its own walk
+            let mut allowed_chain: BTreeSet<u32> = BTreeSet::new();
+            let mut target_file_chain: Vec<u32> = Vec::new();
+            let mut target_slot_loc = None;
+            let mut target_path = None;
+            // target file of Write / Flush / Close
+            if let Some(fp) = &info.file_pre {
+                target_slot_loc = Some((fp.entry_block, fp.entry_off));
+                if fp.first >= 2 {
+                    let (ch, _) = fsck::chain(&fv, fp.first);
+                    // a chain whose first entry is still free (never happens pre-call) is ignored
+                    if fv.val(fp.first) != FatVal::Free {
+                        for c in &ch {
+                            allowed_chain.insert(*c);
+                            owners.entry(*c).or_insert(Owner::File("<open file>".into()));
+                        }
+                        target_file_chain = ch;
+                    }
+                }
+                if let Some(n) = info.file_node {
+                    target_path = Some(it.path_of(n));
+                }
+            }
+            // target named by (directory, name): Open (truncate/create), Delete, Mkdir
+            if let (Some(d), Some(name)) = (info.dir_node, info.name.as_ref()) {
+                let dpath = it.path_of(d);
+                if let Some(dn) = fsck::find_path(&w.root, &dpath) {
+                    // the directory's own chain may be extended by the call
+                    for c in &dn.chain {
+                        allowed_chain.insert(*c);
+                    }
+                    if let RefName::Valid(n11) = names::ref_parse(name) {
+                        if let Some(l) = &dn.listing {
+                            if let Some(s) = l.slots.iter().find(|s| s.kind == fsck::SlotKind::Live && s.name() == n11) {
+                                target_slot_loc = Some((s.block, s.off));
+                            }
+                        }
+                        let child = dn.children.iter().find(|c| c.slot.as_ref().map(|s| s.name()) == Some(n11));
+                        if let Some(c) = child {
+                            if !c.is_dir {
+                                for x in &c.chain {
+                                    allowed_chain.insert(*x);
+                                }
+                                target_file_chain = c.chain.clone();
+                                target_path = Some(c.path.clone());
+                            }
+                        }
+                    }
+                }
+            }
+            volpre.insert(vt.slot, VolPre { owners, allowed_chain, target_file_chain, target_slot_loc, target_path });
+        }
+        let vp = volpre.get(&vt.slot).unwrap();
+        let rel = b - lay.part_start;
+        let old = &*r.old;
+        let new = &*r.new;
+        if rel == 0 {
+            return Some(fail("boot-sector-written", what(r)));
+        }
+        if rel < lay.reserved {
+            if lay.fat32 && rel == lay.fsinfo_sector {
+                if !matches!(kind, "Flush" | "Close" | "CloseVolume" | "Remount" | "CloseAll") {
+                    return Some(fail("fsinfo-written-by-wrong-call", what(r)));
+                }
+                for i in 0..512 {
+                    if old[i] != new[i] && !(488..496).contains(&i) {
+                        return Some(fail("fsinfo-other-bytes-changed", format!("{}: byte {} of the information sector changed", what(r), i)));
+                    }
+                }
+            } else {
+                return Some(fail("reserved-sector-written", what(r)));
+            }
+            cur.over.insert(b, *new);
+            continue;
+        }
+        let fat_end = lay.reserved + lay.num_fats * lay.fat_sectors;
+        if rel < fat_end {
+            let copy = (rel - lay.reserved) / lay.fat_sectors;
+            let s = (rel - lay.reserved) % lay.fat_sectors;
+            if copy == 0 {
+                let eps = 512 / lay.entry_size();
+                for k in 0..eps {
+                    let (o, n) = (entry_at(old, lay, k), entry_at(new, lay, k));
+                    if o == n {
+                        continue;
+                    }
+                    let cl = s * eps + k;
+                    if cl < 2 {
+                        return Some(fail("fat-reserved-entry-changed", format!("{}: FAT entry {} changed from {:#x} to {:#x}", what(r), cl, o, n)));
+                    }
+                    if cl >= lay.clusters + 2 {
+                        return Some(fail("fat-slack-entry-changed", format!("{}: FAT entry {} beyond the last cluster ({}) changed from {:#x} to {:#x}", what(r), cl, lay.clusters + 1, o, n)));
+                    }
+                    if lay.fat32 && (o ^ n) & 0xF000_0000 != 0 {
+                        return Some(fail("fat32-reserved-bits-changed", format!("{}: high nibble of FAT entry {} changed ({:#010x} -> {:#010x})", what(r), cl, o, n)));
+                    }
+                    let was_free = fsck::classify(lay, o) == FatVal::Free;
+                    if was_free {
+                        allocated_in_call.insert((vt.slot, cl));
+                    } else if !(vp.allowed_chain.contains(&cl) || allocated_in_call.contains(&(vt.slot, cl))) {
+                        return Some(fail(
+                            "fat-entry-of-foreign-chain",
+                            format!("{}: FAT entry {} ({:#x} -> {:#x}) belongs to neither a free cluster nor the chain the call operates on (owner before the call: {:?})", what(r), cl, o, n, vp.owners.get(&cl)),
+                        ));
+                    }
+                }
+            } else {
+                let primary = cur.rd(lay.fat_start(0) + s);
+                if *new != primary {
+                    return Some(fail("fat-copy-differs", format!("{}: FAT copy {} sector {} was written with contents that differ from the first copy", what(r), copy, s)));
+                }
+            }
+            cur.over.insert(b, *new);
+            continue;
+        }
+        // directory-slot diff helper
+        let mut dir_block_diff = |blk: u32| {
+            for i in 0..16usize {
+                let (o, n) = (&old[i * 32..i * 32 + 32], &new[i * 32..i * 32 + 32]);
+                if o != n {
+                    changed_slots.insert((blk, i as u32 * 32));
+                    slot_changes.push((blk, i as u32 * 32, o.try_into().unwrap(), n.try_into().unwrap()));
+                }
+            }
+        };
+        if rel < lay.first_data {
+            // FAT16 root directory region
+            dir_block_diff(b);
+            cur.over.insert(b, *new);
+            continue;
+        }
+        let cl = (rel - lay.first_data) / lay.spc + 2;
+        if cl >= lay.clusters + 2 {
+            return Some(fail("past-last-cluster", format!("{}: the block lies beyond the last cluster ({}) of the volume", what(r), lay.clusters + 1)));
+        }
+        let fvp = FatView::new(&pre, lay);
+        let pre_val = fvp.val(cl);
+        if allocated_in_call.contains(&(vt.slot, cl)) {
+            // newly allocated by this call: any contents
+        } else if pre_val == FatVal::Free {
+            return Some(fail("free-cluster-written", format!("{}: cluster {} was free before the call and was not allocated by it", what(r), cl)));
+        } else if pre_val == FatVal::Bad {
+            return Some(fail("bad-cluster-written", format!("{}: cluster {} is marked bad", what(r), cl)));
+        } else {
+            match vp.owners.get(&cl) {
+                Some(Owner::Dir(_)) => dir_block_diff(b),
+                Some(Owner::File(p)) => {
+                    // must be the file being written, and only inside the requested range
+                    let idx = vp.target_file_chain.iter().position(|c| *c == cl);
+                    let (Some(idx), Some((woff, _n, accepted))) = (idx, info.write) else {
+                        if old != new {
+                            return Some(fail("foreign-file-data-written", format!("{}: cluster {} belongs to {} which this call must not change (target {:?})", what(r), cl, p, vp.target_path)));
+                        }
+                        cur.over.insert(b, *new);
+                        continue;
+                    };
+                    let blk_in_cluster = (rel - lay.first_data) % lay.spc;
+                    let file_pos = idx as u64 * lay.cluster_bytes() as u64 + blk_in_cluster as u64 * 512;
+                    for i in 0..512usize {
+                        if old[i] != new[i] {
+                            let p = file_pos + i as u64;
+                            if p < woff as u64 || p >= woff as u64 + accepted as u64 {
+                                return Some(fail(
+                                    "data-outside-written-range",
+                                    format!("{}: file byte {} changed ({:#04x} -> {:#04x}) but the call wrote [{}, {})", what(r), p, old[i], new[i], woff, woff as u64 + accepted as u64),
+                                ));
+                            }
+                        }
+                    }
+                }
+                None => {
+                    if old != new {
+                        return Some(fail("lost-cluster-written", format!("{}: cluster {} is allocated but belongs to no file or directory", what(r), cl)));
+                    }
+                }
+            }
+        }
+        cur.over.insert(b, *new);
+    }
+    // directory slots: at most one slot per call, and it must be the call's own
+    if !changed_slots.is_empty() {
+        if kind == "Write" || kind == "Read" {
+            let (b, o) = changed_slots.iter().next().unwrap();
+            return Some(fail("write-changed-directory", format!("{} changed the directory slot at block {} offset {}", kind, b, o)));
+        }
+        if changed_slots.len() > 1 {
+            return Some(fail("several-directory-slots-changed", format!("{} changed {} directory slots: {:?}", kind, changed_slots.len(), changed_slots)));
+        }
+        let (b, o) = *changed_slots.iter().next().unwrap();
+        let first = slot_changes.iter().find(|c| c.0 == b && c.1 == o).unwrap();
+        let was_free = first.2[0] == 0x00 || first.2[0] == 0xE5;
+        let target = volpre.values().find_map(|v| v.target_slot_loc);
+        let owns = target == Some((b, o));
+        let claims = was_free && (info.created || info.mkdir || (kind == "Open" || kind == "Mkdir"));
+        if !(owns || claims) {
+            return Some(fail(
+                "foreign-directory-slot-changed",
+                format!("{} changed the directory slot at block {} offset {} ({:02x?} -> {:02x?}); its own slot is {:?}", kind, b, o, first.2, slot_changes.last().unwrap().3, target),
+            ));
+        }
+        if kind == "Delete" {
+            let last = slot_changes.iter().rev().find(|c| c.0 == b && c.1 == o).unwrap();
+            if first.2[1..] != last.3[1..] || last.3[0] != 0xE5 {
+                return Some(fail("delete-changed-more-than-marker", format!("Delete rewrote the slot {:02x?} as {:02x?}", first.2, last.3)));
+            }
+        }
+    }
     None
 }
